@@ -100,7 +100,11 @@ Proof. exact satisfies_CS_n. Qed.
 Theorem C13_satisfies_first_false : forall acosF s w subs x xs,
   satisfies acosF s x = Ok false -> satisfies acosF (CS ((s, w) :: subs)) (VC (x :: xs)) = Ok false.
 Proof. exact satisfies_CS_first_false. Qed.
+Theorem C13_sample_componentwise_n : forall acosF fuel subs us xs rest, comp_smp acosF fuel subs us xs rest ->
+  sample acosF fuel (CS subs) us = (Some (Ok (VC xs)), rest).
+Proof. exact sample_CS_n. Qed.
 
+Print Assumptions C13_sample_componentwise_n.
 Print Assumptions C13_distance_law_n.
 Print Assumptions C13_resolution_law_n.
 Print Assumptions C13_interpolate_componentwise_n.
